@@ -1000,6 +1000,58 @@ def extract_flags():
         and set(tcalls.get("Event.finish", ["?"])) <= {"time.time", "float", "self.detail"}
         and set(tcalls.get("DebugTiming.add", ["?"])) <= {"Event", "_events.append"}
         and not any(isinstance(n, ast.FunctionDef) for n in tmod.body))      # no module-level helpers that could touch details
+    # C01 (round 10): strings that UTF-8 cannot encode (a python str may hold unpaired surrogates, PEP 383).
+    #  * util.to_bytes is NFC followed by STRICT UTF-8: its whole body is
+    #        return unicodedata.normalize("NFC", u).encode("utf-8")
+    #    — the .encode call carries no error handler (or the explicit "strict"), so such a str raises
+    #    UnicodeEncodeError instead of being folded onto the bytes of another string (the model's `utf8enc`);
+    #    `unicodedata` is the standard module, and _key / wormhole use this very function
+    #  * both derive_key methods hand to_bytes(purpose) — the bare, never re-bound parameter — to _key.derive_key
+    from wormhole import util as _c01util
+    import unicodedata as _std_unicodedata
+    tb = ast.parse(textwrap.dedent(inspect.getsource(_c01util.to_bytes))).body[0]
+    tb_body = [n for n in tb.body
+               if not (isinstance(n, ast.Expr) and isinstance(n.value, ast.Constant) and isinstance(n.value.value, str))]
+    tb_param = tb.args.args[0].arg if len(tb.args.args) == 1 else None
+
+    def _const(node, values):
+        return isinstance(node, ast.Constant) and isinstance(node.value, str) and node.value.lower().replace("_", "-") in values
+
+    def _strict_utf8_encode_of_nfc(node):
+        if not (isinstance(node, ast.Call) and isinstance(node.func, ast.Attribute) and node.func.attr == "encode"):
+            return False
+        kw = {k.arg: k.value for k in node.keywords}
+        if None in kw or not set(kw) <= {"encoding", "errors"} or len(node.args) > 2:
+            return False
+        enc = node.args[0] if node.args else kw.get("encoding")
+        err = node.args[1] if len(node.args) == 2 else kw.get("errors")
+        if (node.args and "encoding" in kw) or (len(node.args) == 2 and "errors" in kw):
+            return False
+        if enc is None or not _const(enc, {"utf-8", "utf8"}):
+            return False
+        if err is not None and not _const(err, {"strict"}):
+            return False
+        inner = node.func.value
+        return (isinstance(inner, ast.Call) and _call_name(inner) == "unicodedata.normalize" and not inner.keywords
+                and len(inner.args) == 2 and _const(inner.args[0], {"nfc"})
+                and isinstance(inner.args[1], ast.Name) and inner.args[1].id == tb_param)
+    flags["to_bytes_is_nfc_then_strict_utf8"] = (
+        tb_param is not None and not tb.args.defaults and tb.args.vararg is None and tb.args.kwarg is None
+        and not tb.args.kwonlyargs and not tb.decorator_list
+        and len(tb_body) == 1 and isinstance(tb_body[0], ast.Return) and _strict_utf8_encode_of_nfc(tb_body[0].value)
+        and getattr(_c01util, "unicodedata", None) is _std_unicodedata
+        and _c01key.to_bytes is _c01util.to_bytes and _c01w.to_bytes is _c01util.to_bytes)
+
+    def _derive_feeds_to_bytes(klass):
+        fn = ast.parse(textwrap.dedent(inspect.getsource(vars(klass)["derive_key"]))).body[0]
+        calls = [n for n in ast.walk(fn) if isinstance(n, ast.Call) and _call_name(n) == "derive_key"]
+        return (not _rebinds(fn, "purpose") and len(calls) == 1 and len(calls[0].args) == 3 and not calls[0].keywords
+                and _to_bytes_of(calls[0].args[1], lambda a: isinstance(a, ast.Name) and a.id == "purpose")
+                and _is_self_attr(calls[0].args[0], "_key")
+                and [n for n in ast.walk(fn) if isinstance(n, ast.Return)][-1].value is calls[0])
+    flags["derive_key_feeds_to_bytes_purpose"] = (
+        _derive_feeds_to_bytes(_c01w._DelegatedWormhole) and _derive_feeds_to_bytes(_c01w._DeferredWormhole)
+        and _c01w.derive_key is _c01key.derive_key)
     return flags
 
 
@@ -3247,6 +3299,101 @@ def extract_pyir_dil():
     return "\n".join(L) + "\n", len(all_done), all_bad
 # [dil] end -----------------------------------------------------------------
 
+# [C13 wire] begin ------------------------------------------------------------
+# C13, the 4-byte boundary of the subchannel id: the body of `Manager.allocate_subchannel_id` in the PyIR of
+# WV/Model/PyIR.lean (translated by `_PyIR`, the translator of extract_pyir; a module of its own, WV/Gen/C13Wire.lean,
+# so that the pins of WV.Gen.PyIR -- `translated`, `untranslatable` -- do not move and Manager's Automat outputs are
+# not dragged in), every statement in wormhole._dilation that stores to an attribute `_next_subchannel_id`, the bound
+# `to_be4` enforces, and the record classes whose encoder writes `to_be4(r.scid)`.
+
+PYIR_C13_METHODS = [("wormhole._dilation.manager", "Manager", "allocate_subchannel_id")]
+_C13_COUNTER = "_next_subchannel_id"
+_C13_DILATION_MODULES = ["connection", "connector", "encode", "inbound", "manager", "outbound", "roles", "subchannel"]
+
+
+def extract_c13_wire():
+    L = ["import WV.Model.PyIR",
+         "namespace WV.Gen.C13Wire",
+         "open WV.PyIR",
+         ""]
+    for module, cls, name in PYIR_C13_METHODS:
+        mod = importlib.import_module(module)
+        klass = getattr(mod, cls)
+        f = vars(klass)[name]
+        f = getattr(f, "method", f)
+        fn = ast.parse(textwrap.dedent(inspect.getsource(f))).body[0]
+        why = None
+        try:
+            tr = _PyIR(mod, klass, {name: "plain"}, set(), fn)
+            tr.klass_funcs = {name: fn}
+            body = tr.block(fn.body)
+            if tr.sibling_calls:
+                raise _Untranslatable("calls self.%s" % sorted(tr.sibling_calls)[0])
+            val = "some ([%s],\n   %s)" % (", ".join(lean_str(x) for x in tr.params), body)
+        except _Untranslatable as e:
+            val, why = "none", str(e)
+        L.append("/-- parameters and body of `%s.%s` (`none`: a construct outside the PyIR subset) -/" % (cls, name))
+        L.append("def %s : Option (List String × List Stmt) :=\n  %s" % (ident(name), val))
+        L.append("def %s : Option String := %s" % (ident(name + "_untranslatable"), _lean_opt_str(why)))
+        L.append("")
+    # every store to the counter, anywhere in the dilation package
+    writers = []
+    for m in _C13_DILATION_MODULES:
+        try:
+            mod = importlib.import_module("wormhole._dilation." + m)
+        except ImportError:
+            continue
+        tree = ast.parse(inspect.getsource(mod))
+
+        def visit(node, where):
+            for ch in ast.iter_child_nodes(node):
+                w = where
+                if isinstance(ch, (ast.ClassDef, ast.FunctionDef, ast.AsyncFunctionDef)):
+                    w = (where + "." if where else "") + ch.name
+                tg = ch.targets if isinstance(ch, ast.Assign) else [ch.target] if isinstance(ch, (ast.AugAssign, ast.AnnAssign)) else []
+                flat = []
+                for t in tg:
+                    flat += list(t.elts) if isinstance(t, (ast.Tuple, ast.List)) else [t]
+                if any((isinstance(t, ast.Attribute) and t.attr == _C13_COUNTER) or (isinstance(t, ast.Name) and t.id == _C13_COUNTER)
+                       for t in flat):
+                    writers.append((where or m, " ".join(ast.unparse(ch).split())))
+                if isinstance(ch, ast.Call) and _call_name(ch).split(".")[-1] in ("setattr", "__setattr__") and \
+                        _C13_COUNTER in ast.unparse(ch):
+                    writers.append((where or m, " ".join(ast.unparse(ch).split())))
+                visit(ch, w)
+        visit(tree, "")
+    L.append("/-- every statement in wormhole._dilation that stores to `%s`: (where, statement), in source order -/" % _C13_COUNTER)
+    L.append("def counter_writers : List (String × String) := [%s]" % ", ".join(
+        "(%s, %s)" % (lean_str(a), lean_str(b)) for a, b in writers))
+    # to_be4: `if not 0 <= value < N: raise ValueError`
+    from wormhole._dilation import encode as _enc, connection as _conn
+    t = ast.parse(textwrap.dedent(inspect.getsource(_enc.to_be4)))
+    cmps = [n for n in ast.walk(t) if isinstance(n, ast.Compare)]
+    if len(cmps) != 1 or [type(o).__name__ for o in cmps[0].ops] != ["LtE", "Lt"] or ast.unparse(cmps[0].left) != "0":
+        raise ValueError("to_be4: range check not of the form `0 <= value < N`")
+    guard = [n for n in ast.walk(t) if isinstance(n, ast.If) and isinstance(n.test, ast.UnaryOp) and isinstance(n.test.op, ast.Not)
+             and n.test.operand is cmps[0] and any(isinstance(x, ast.Raise) for x in n.body)]
+    if len(guard) != 1:
+        raise ValueError("to_be4: `if not 0 <= value < N: raise` not found")
+    limit = eval(compile(ast.Expression(cmps[0].comparators[-1]), "<to_be4>", "eval"), {})
+    L.append("/-- `to_be4(value)` raises unless `0 <= value < be4_limit` -/")
+    L.append("def be4_limit : Nat := %d" % int(limit))
+    # encode_record: which record classes write `to_be4(r.scid)`
+    t = ast.parse(textwrap.dedent(inspect.getsource(_conn.encode_record)))
+    classes = []
+    for n in ast.walk(t):
+        if isinstance(n, ast.If) and isinstance(n.test, ast.Call) and _call_name(n.test) == "isinstance" and len(n.test.args) == 2:
+            uses = [c for b in n.body for c in ast.walk(b) if isinstance(c, ast.Call) and _call_name(c).split(".")[-1] == "to_be4"
+                    and len(c.args) == 1 and isinstance(c.args[0], ast.Attribute) and c.args[0].attr == "scid"]
+            if uses:
+                classes.append(ast.unparse(n.test.args[1]))
+    L.append("/-- record classes whose wire form contains `to_be4(r.scid)` -/")
+    L.append("def scid_is_be4 : List String := [%s]" % ", ".join(lean_str(c) for c in sorted(classes)))
+    L.append("end WV.Gen.C13Wire")
+    return "\n".join(L) + "\n"
+# [C13 wire] end --------------------------------------------------------------
+
+
 BASELINE = os.path.join(HERE, "gen_baseline")
 
 
@@ -3325,6 +3472,7 @@ def main():
         state["pyir_dil_n"], state["pyir_dil_bad"] = n, bad
         return hdr + text
     section("PyIRDil", pyir_dil)
+    section("C13Wire", lambda: hdr + extract_c13_wire())
     # [dil] end
     L = [hdr + "namespace WV.Gen.Failed",
          "/-- generated modules the translator could NOT regenerate from the working tree in this run (they still hold their",
